@@ -276,11 +276,8 @@ class GriffeLoader:
         """
         seen = seen or set()
         seen.add(module.path)
-        if module.exports is None:
-            return
-
         expanded = []
-        for export in module.exports:
+        for export in module.exports or ():
             # It's a name: we resolve it, get the module it comes from,
             # recurse into it, and add its exports to the current ones.
             if isinstance(export, ExprName):
@@ -299,9 +296,10 @@ class GriffeLoader:
             # It's a string, simply add it to the current exports.
             else:
                 expanded.append(export)
-        module.exports = expanded
+        if module.exports is not None:
+            module.exports = expanded
 
-        # Make sure to expand exports in all modules.
+        # Make sure to expand exports in all modules (also when this one declares no `__all__`).
         for submodule in module.modules.values():
             if not submodule.is_alias and submodule.path not in seen:
                 self.expand_exports(submodule, seen)
